@@ -171,6 +171,18 @@ def call(ip, name, args, kw):
     if name == "where":
         if len(args) == 3:
             c, a, b = args
+            if isinstance(c, np.ndarray) or isinstance(a, np.ndarray) or isinstance(b, np.ndarray):
+                C, A, B = np.broadcast_arrays(c if isinstance(c, np.ndarray) else to_obj_array(c),
+                                              a if isinstance(a, np.ndarray) else to_obj_array(a),
+                                              b if isinstance(b, np.ndarray) else to_obj_array(b))
+                out = np.empty(C.shape, dtype=object)
+                for idx in np.ndindex(C.shape):
+                    tv = ip.truth(C[idx])
+                    out[idx] = (A[idx] if tv else B[idx]) if tv is not None else ip.ite(C[idx], A[idx], B[idx])
+                return out
+            tv = ip.truth(c)
+            if tv is not None:
+                return a if tv else b
             return ip.ite(c, a, b)
         raise OutsideFragment("np.where with one argument")
     if name == "arange":
